@@ -23,12 +23,13 @@ def make_pool(hszinc):
         {'id': 'l1', 'v': [1.0, 'x']},          # 8 a 3.0-only cell: an unversioned grid upgrades itself to 3.0
         {'id': 0, 'v': 9},                      # 9 falsy int id
         {'id': '', 'v': 10},                    # 10 empty-string id
+        {'id': 5.0, 'v': 11},                   # 11 float id: equal to the int id 5 of row 2, but another id ('5.0' vs '5')
     ]
 
 
 def row_kind(i):
     return {0: 'str-id', 1: 'no-id', 2: 'int-id', 3: 'ref-id', 4: 'dup-id', 5: 'non-dict', 6: 'str-id',
-            7: 'refdis-id', 8: 'v3-cell', 9: 'zero-id', 10: 'empty-id'}[i]
+            7: 'refdis-id', 8: 'v3-cell', 9: 'zero-id', 10: 'empty-id', 11: 'float-id'}[i]
 
 
 def new_grid(hszinc, version=None):
@@ -277,7 +278,7 @@ def observe_list(st, l, deep=True):
 def key_universe(hszinc):
     Ref = hszinc.Ref
     return [('x1', "'x1'"), ('y2', "'y2'"), ('5', "'5'"), ('@r1', "'@r1'"), (Ref('r1'), "Ref('r1')"),
-            ('never', "'never'"), ('z9', "'z9'"), ('r1', "'r1'"), ('@x1', "'@x1'"), ('idx', "'idx'"),
+            ('never', "'never'"), ('z9', "'z9'"), ('5.0', "'5.0'"), ('r1', "'r1'"), ('@x1', "'@x1'"), ('idx', "'idx'"),
             ('0', "'0'"), ('', "''"), ('l1', "'l1'"),
             (Ref('x1'), "Ref('x1')"), (str(Ref('r1', 'Display')), "str(Ref('r1','Display'))"),
             (Ref('r1', 'Display'), "Ref('r1','Display')")]
@@ -335,6 +336,8 @@ def id_kind(v):
         return 'idkind=str'
     if isinstance(v, int):
         return 'idkind=int'
+    if isinstance(v, float):
+        return 'idkind=float'
     return 'idkind=ref'
 
 
